@@ -285,8 +285,8 @@ def translator_tie(tier, seed, vals, n_exh, hvals, corr_violations, prebuilt=Non
             # (d) the generated functions on the inputs of the correspondence stream; a larger sample and an
             # in-kernel exhaustive search when the proof is broken (this IS the search for a failing input)
             rng = random.Random(seed * 31 + 7)
-            n_s = (250 if tier == "quick" else 3000) * (4 if broken else 1)     # of each: exhaustive part, random part
-            n_h = (200 if tier == "quick" else 2000) * (2 if broken else 1)
+            n_s = (250 if tier == "quick" else 1000) * (4 if broken else 1)     # of each: exhaustive part, random part
+            n_h = (200 if tier == "quick" else 1000) * (2 if broken else 1)
             exh, rnd = list(range(min(n_exh, len(vals)))), list(range(min(n_exh, len(vals)), len(vals)))
             rng.shuffle(exh); rng.shuffle(rnd)
             pick = sorted(exh[:n_s] + rnd[:n_s])
